@@ -282,16 +282,20 @@ def apply_sweep_mut(module, mut) -> bool:
 
 def checks(h):
     ch = corpus.chunks()
-    keys = [(rel, idx) for rel, idx, _ in ch]
+    files = sorted({rel for rel, _, _ in ch})
     if h.quick:
-        # a seed-dependent quarter of the corpus per run
-        sel = [k for i, k in enumerate(keys) if (i + h.seed) % 4 == 0]
-    else:
-        sel = keys
-    done = set()
-    for i, (rel, idx) in enumerate(sel):
-        if i % h.nshards != h.shard:
+        # a seed-dependent quarter of the corpus FILES per run
+        files = [f for i, f in enumerate(files) if (i + h.seed) % 4 == 0]
+    # files are the unit of sharding and of de-duplication, so that the set of cases does not depend on
+    # the number of shards: per file, every (op name, mutation) is exercised on its first instance
+    mine = {f for i, f in enumerate(files) if i % h.nshards == h.shard}
+    done: set = set()
+    cur = None
+    for rel, idx, _ in ch:
+        if rel not in mine:
             continue
+        if rel != cur:
+            cur, done = rel, set()
         r = {"kind": "corpus", "file": rel, "idx": idx}
         run(h, r)
         module = load_chunk(r)
@@ -300,7 +304,7 @@ def checks(h):
         for mut in sweep_jobs(module):
             opname = list(module.walk())[mut[1]].name
             key = (opname, mut[0], mut[2])
-            if key in done:      # one instance per (op name, mutation) and shard is enough
+            if key in done:
                 continue
             done.add(key)
             run(h, {"kind": "sweep", "file": rel, "idx": idx, "mut": mut})
